@@ -4061,8 +4061,12 @@ func (a *Agent) handleFileTransferStreamOpen(peerID identity.AgentID, streamID u
 	a.fileStreams[streamID] = fts
 	a.fileStreamsMu.Unlock()
 
-	// Send ACK with our ephemeral public key for E2E encryption
-	a.WriteStreamOpenAck(peerID, streamID, requestID, nil, 0, ephPub)
+	// Send ACK with our ephemeral public key for E2E encryption. If it cannot
+	// be delivered (the peer went away meanwhile) nobody will ever use or close
+	// this stream: release it.
+	if err := a.WriteStreamOpenAck(peerID, streamID, requestID, nil, 0, ephPub); err != nil {
+		a.cleanupFileTransferStream(streamID)
+	}
 }
 
 // handleFileUploadStreamOpen handles a file upload stream open request.
@@ -4094,8 +4098,12 @@ func (a *Agent) handleShellStreamOpen(peerID identity.AgentID, streamID uint64, 
 		return
 	}
 
-	// Send ACK with our ephemeral public key for E2E encryption
-	a.WriteStreamOpenAck(peerID, streamID, requestID, nil, 0, localEphemeralPub)
+	// Send ACK with our ephemeral public key for E2E encryption. If it cannot
+	// be delivered (the peer went away meanwhile) nobody will ever use or close
+	// this stream: release it.
+	if err := a.WriteStreamOpenAck(peerID, streamID, requestID, nil, 0, localEphemeralPub); err != nil {
+		a.shellHandler.HandleStreamClose(streamID)
+	}
 }
 
 // handleFileTransferStreamData processes data for a file transfer stream.
